@@ -22,6 +22,8 @@ CONFIG = {
                 spec=['C03/'], n=(210, 4000)),
     'C04': dict(profiles=['rescons', 'rescons', 'late', 'mixed'], fwd_tags=['cons'], bwd=False, o1=False,
                 spec=['C04/'], n=(240, 4000)),
+    'C05': dict(profiles=['tasks', 'taskcons', 'resources', 'rescons', 'optional', 'fol', 'mixed', 'indicators', 'buffers'],
+                fwd_tags=[], bwd=True, o1=False, spec=[], n=(270, 5000)),
     'C06': dict(profiles=['optional', 'optional', 'optional_ind', 'mixed'], fwd_tags=['task', 'cons', 'horizon', 'overlap', 'ind', 'buf'], bwd=True, o1=False,
                 spec=['C06/', 'C01/', 'C02/', 'C08/', 'C09/'], n=(240, 4000), findings_from=['F13', 'F38'],
                 exclude_kinds=['nb_tasks_late', 'nb_tasks_cumulative', 'flowtime_single_resource', 'idle']),
@@ -83,6 +85,61 @@ def confirm_in_coq(ctx, cands):
     while len(res) < len(cands):
         res.append(None)
     return res
+
+
+def lost_schedule_search(ctx, prog, witness):
+    """C05: the tie gave a valuation the model admits and the implementation rejects.  Is it a valid schedule
+    (every Spec clause holds, evaluated in Coq) that the real constraint system rejects when pinned?"""
+    import impl
+    import z3
+    import re
+    iv = {k: v for k, v in witness.items() if isinstance(v, int) and not isinstance(v, bool)}
+    bv = {k: v for k, v in witness.items() if isinstance(v, bool)}
+    vf = os.path.join(ctx.work, 'valid.v')
+    with open(vf, 'w') as f:
+        f.write('From Coq Require Import ZArith List Bool String.\nFrom PS.model Require Import Smt Enc Ind Prog Solution Driver.\n'
+                'From PS.spec Require Import Spec.\nImport ListNotations.\nOpen Scope string_scope.\n')
+        f.write('Definition cp : list op := %s.\n' % terms.to_coq(prog))
+        f.write('Eval vm_compute in (valid_schedule spec_all cp (env_of [%s] [%s])).\n' % (
+            '; '.join('("%s", (%d)%%Z)' % (k, v) for k, v in sorted(iv.items())),
+            '; '.join('("%s", %s)' % (k, 'true' if v else 'false') for k, v in sorted(bv.items()))))
+    r = subprocess.run(['coqc'] + common.COQFLAGS + [vf], cwd=common.COQ, capture_output=True, text=True, timeout=600)
+    if r.returncode != 0 or 'Some' not in r.stdout:
+        return None
+    txt = ' '.join(r.stdout.split())
+    failing = re.findall(r'"([^"]+)"', txt)
+    model_admits = txt.rstrip().split(',')[-1].strip().startswith('true') or ', true)' in txt
+    # pin the schedule (not the parking positions, not the auxiliary variables) on the real constraint system
+    im = impl.Impl()
+    if im.run(prog)[0] != 'ok':
+        return None
+    im.initialize()
+    A = im.assertions()
+    s = z3.Solver()
+    s.set('timeout', 20000)
+    for a in A:
+        s.add(a)
+    unsched = {k[:-len('_scheduled')] for k, v in bv.items() if k.endswith('_scheduled') and not v}
+    pins = {}
+    for k, v in bv.items():
+        if '_baux_' not in k:
+            pins[k] = v
+    for k, v in iv.items():
+        if '_aux_' in k or k == 'horizon' or k.startswith('Indicator_') or '_level' in k or '_sc_time_' in k:
+            continue
+        m = re.match(r'(T\d+)_(start|end|duration)$', k)
+        if m and m.group(1) in unsched:
+            continue
+        if '_busy_' in k and v < 0:
+            continue
+        mb = re.match(r'.*_busy_(T\d+)_(start|end)$', k)
+        if mb and mb.group(1) in unsched:
+            continue
+        pins[k] = v
+    for k, v in pins.items():
+        s.add((z3.Bool(k) == v) if isinstance(v, bool) else (z3.Int(k) == v))
+    res = s.check()
+    return {'spec_clauses_failing': failing, 'model_admits': model_admits, 'impl_with_pins': str(res), 'pins': pins}
 
 
 def clause_kind(key):
@@ -243,6 +300,20 @@ def run(ctx, replay=None):
                     common.violation(ctx, path)
                 new_viol += 1
             stats['reduced_programs_searched'] = len(red)
+    # C05: a valuation the model admits and the implementation rejects -- is it a valid schedule that is lost?
+    if ctx.prop == 'C05' and tie_breaks and new_viol == 0:
+        for (i, direction, info) in [b for b in tie_breaks if b[1] == 'model=>impl'][:15]:
+            ls = lost_schedule_search(ctx, progs[i], info.get('witness', {}))
+            stats['lost_schedule_searches'] += 1
+            if ls and not ls['spec_clauses_failing'] and ls['impl_with_pins'] == 'unsat':
+                path = common.write_replay(ctx, 'lost', {
+                    'kind': 'valid-schedule-lost', 'property': 'C05', 'program': terms.dump(progs[i]), 'program_pretty': pretty(progs[i]),
+                    'schedule': ls['pins'], 'implementation_assertion_rejecting_it': info.get('impl_assert'),
+                    'what': 'every Spec clause of the problem holds on this schedule (evaluated by vm_compute), the model admits it, and the constraint '
+                            'system built by /repo is unsatisfiable once the schedule is pinned (start / end / duration of acting tasks, flags, selections)'})
+                common.violation(ctx, path)
+                new_viol += 1
+                break
     # tie breaks not explained by a concrete violation
     if tie_breaks and new_viol == 0:
         i, direction, info = tie_breaks[0]
